@@ -1874,14 +1874,20 @@ class Tag(PageElement):
          it's probably because your `Tag` has more than one thing
          inside it.
         """
-        if len(self.contents) != 1:
-            return None
-        child = self.contents[0]
-        if isinstance(child, NavigableString):
-            return child
-        elif isinstance(child, Tag):
-            return child.string
-        return None
+        # Follow the chain of only children with a loop rather than
+        # by asking each child for its own .string, so that the call
+        # depth doesn't grow with the nesting depth.
+        tag = self
+        while True:
+            if len(tag.contents) != 1:
+                return None
+            child = tag.contents[0]
+            if isinstance(child, NavigableString):
+                return child
+            elif isinstance(child, Tag):
+                tag = child
+            else:
+                return None
 
     @string.setter
     def string(self, string: str) -> None:
